@@ -33,7 +33,9 @@ CLAIMED = {
             "(incl. undecodable ones) is answered; histories keep serving while no exception escapes a "
             "handler (…_partial). The remaining half — no exception escapes while the device conforms — is "
             "decided by the differential correspondence run of the full manager model against the real "
-            "server/protocol/dongle code with the oracle Spec.c03 on the implementation's output.",
+            "server/protocol/dongle code with the oracle Spec.c03 on the implementation's output, per line and over "
+            "whole manager lifetimes (op `history`: 2..8 mixed lines on one manager and one device with link / "
+            "status faults and repairs, against the model's `serve`).",
             "partial: exception-safety under a conforming device is validated by correspondence, not proved; "
             "JSON grammar and python-bitcoinlib (shim) are trusted"),
     "C04": ("Lean theorems over the tables the translator regenerates from the source on every run: every "
